@@ -36,7 +36,7 @@ func verifyFunction(w *World, fn *ssa.Function, con *Contract, props []string) (
 				rep.OutOfSub = o.Msg
 				return
 			}
-			panic(r)
+			rep.OutOfSub = fmt.Sprintf("generator fault (%v): the function's shape is outside what the VC generator handles", r)
 		}
 	}()
 	alloc0 := x.allocInit()
